@@ -135,6 +135,11 @@ def run(chk: core.Check, replay=None) -> None:
         if len(last_iter["violLo"]) >= 2:
             chk.stratum("several_limits_in_one_step")
         # ---- (B) the same shot with the limit that fired relaxed: earlier rows must be bit-identical
+        if a["reason"] not in RELAX:
+            # not one of the three documented reasons (the monitor's Reason clauses report it as well)
+            pairs.append({"tid": tid, "ev": "Pair", "clause": "C04.ReasonNotOneOfTheThreeLimits", "ok": False})
+            a["pair_info"] = repr(a["reason"])
+            continue
         name, relax = RELAX[a["reason"]]
         sc2 = copy.deepcopy(sc)
         cur = sc2["cfg"].get(name, DEFAULTS[name])
